@@ -4,7 +4,7 @@
 From Coq Require Import ZArith Bool List Lia.
 From MomoCommon Require Import GenPrelude.
 From C18 Require Import Gen_Vertices Gen_Ceil Model Layout Fill Vertices Bits.
-From C18 Require Gen_List.
+From C18 Require Gen_List Gen_Mut Gen_Bits.
 Import ListNotations.
 Local Open Scope Z_scope.
 
@@ -150,6 +150,14 @@ Section WithL.
 
   Lemma maxCodeParam_eq : maxCodeParam = 255.
   Proof. reflexivity. Qed.
+
+  (* the trivial getters, as generated (definitional: they return the member) *)
+  Lemma generated_getters cp a ts al mb :
+    Gen_List.GetTotalSize cp a ts al = ts /\ Gen_List.GetAlignment cp a ts al = al /\
+    Gen_Mut.IsMutable Gen_Bits.GetBit ts mb ts = Stuck.
+  Proof.
+    split; [reflexivity|]. split; [reflexivity|]. unfold Gen_Mut.IsMutable. rewrite Z.ltb_irrefl. reflexivity.
+  Qed.
 
   Lemma source_constants :
     Gen_List.vertexCount L = 2 ^ L /\ Gen_Vertices.maxColumnCount L = 2 ^ (L - 1) /\ Gen_Vertices.maxCodeParam = 255.
